@@ -135,10 +135,12 @@ impl HybridTimestamp {
 
     pub fn increment(self) -> Self {
         let timestamp = Timestamp::now();
-        if timestamp == self.0 {
-            Self(timestamp, self.1.increment())
-        } else {
+        if timestamp > self.0 {
             Self(timestamp, LamportTimestamp::default())
+        } else {
+            // The wall clock did not advance (or went backwards): keep our own time and count
+            // logically so that the result is always larger than `self`.
+            Self(self.0, self.1.increment())
         }
     }
 
